@@ -270,6 +270,7 @@ def run(ctx):
     d11_acc_lanes_limited(db, rep)
     # D12: scratch registers are chosen against ALL live compiler variables (shared with C06)
     _il10.import_module("rules.c06").compiler_var_scans_complete(db, rep, "D12-VAR-SCAN-COMPLETE")
+    d13_wide_constant_uses_upper_half(db, rep)
     # a generated wrapper hands native code an uncleared stack executor: every counter the code reads must have been stored by it (shared with C03 D8)
     import emitstate as _es
     _names = {}
@@ -559,3 +560,68 @@ def d6_acc_slot_width(db, rep, rule="D6-ACC-SLOT-WIDTH"):
                       (f.name, width, how, slot), line=c.line)
     if n < 5:
         raise AnalysisBroken("only %d generated stores into ex->accumulators[] found" % n)
+
+
+def d13_wide_constant_uses_upper_half(db, rep, rule="D13-WIDE-CONST-UPPER-HALF"):
+    """JIT mode computes the emulation semantics "for constant ... values" too.  The x86 constant loaders special-case 32-bit
+    patterns (0xffffffff -> pcmpeq, 0x01010101 -> pcmpeq+pabs, shifted masks) - right for a 1/2/4-byte constant, which is that
+    pattern in every 32-bit lane.  An 8-BYTE constant whose low half happens to be one of those patterns (0x00000000ffffffff) is
+    a different value: its upper half is 0.  For size 8 and every 32-bit pattern K the loader compares `value` with, every
+    feasible path through the loader (branches on size and value decided by that assignment, all others both ways) must read the
+    upper half (`value >> 32`) before it returns; a path that does not has loaded K into both halves."""
+    from exprval import evaluate, NotPure
+    n = 0
+    for tub, fn in (("orcprogram-avx", "orc_avx_load_constant"), ("orcprogram-sse", "orc_sse_load_constant"), ("orcprogram-mmx", "orc_mmx_load_constant")):
+        f = db.tu(tub).fn.get(fn)
+        if f is None or f.body is None:
+            raise AnalysisBroken("%s not found" % fn)
+        rep.saw(f)
+        ks = set()
+        for x in f.walk():
+            if x.k == "BinaryOperator" and x.op == "==":
+                l, r = strip_casts(x.c[0]), strip_casts(x.c[1])
+                if l is not None and l.k == "DeclRefExpr" and l.name == "value" and r is not None and r.v is not None and 0 < (r.v & 0xffffffffffffffff) < (1 << 32):
+                    ks.add(r.v & 0xffffffff)
+        if not ks:
+            raise AnalysisBroken("%s: no 32-bit special cases found" % fn)
+
+        def reads_upper(e):
+            return "value>>32" in unparse(e).replace(" ", "").replace("(", "").replace(")", "")
+        for K in sorted(ks):
+            env = {"size": 8, "value": K}
+            seen, stack, wit = set(), [f.entry], None
+            while stack and wit is None:
+                b = stack.pop()
+                if b in seen:
+                    continue
+                seen.add(b)
+                blk = f.blocks[b]
+                if any(reads_upper(e) for e in blk.el) or (blk.cond is not None and reads_upper(blk.cond)):
+                    continue
+                if b == f.exit or any(e.k == "ReturnStmt" for e in blk.el):
+                    wit = b
+                    break
+                succ = [(i, s) for i, s in enumerate(blk.succs) if s is not None]
+                val = None
+                if blk.cond is not None and len(succ) >= 2 and all(f.edge_kind(b, i) in (True, False) for i, _ in succ):
+                    try:
+                        val = bool(evaluate(blk.cond, env, width=64))
+                    except (NotPure, ValueError, ZeroDivisionError, KeyError) as ex_:
+                        val = None
+                        if os.environ.get("DBG13"):
+                            print("DBG13 uneval", unparse(blk.cond)[:80], repr(ex_)[:80])
+                for i, s in succ:
+                    if val is None or f.edge_kind(b, i) == val:
+                        stack.append(s)
+            n += 1
+            line = None
+            if wit is not None:
+                els = f.blocks[wit].el
+                line = els[0].line if els else f.line
+            rep.check(wit is None, rule, where(f), "%s(size=8,value=%#x)" % (fn, K), "an 8-byte constant is loaded with its upper half",
+                      "%s can return for the 8-byte constant %#018x without reading `value >> 32` (path ends near line %s): the 32-bit special case for "
+                      "%#x is taken and the register holds that pattern in BOTH halves of every 64-bit lane - `andq d, s, 0xffffffff` computes `s`" %
+                      (fn, K, line, K), line=line)
+    if n < 6:
+        raise AnalysisBroken("only %d (loader, pattern) pairs evaluated" % n)
+    return n
